@@ -243,3 +243,8 @@ func VerifDeleteClass(class string) {
 // VerifSetTargetFields sets the fields of a T that the completion predicates read but the JSON
 // projection does not carry.
 func (t *T) VerifSetTargetFields(definedMethod string) { t.DefinedMethod = definedMethod }
+
+// VerifParentMethod exposes the ancestor walk of method lookup (getParentMethodT).
+func VerifParentMethod(frame, class, method string, isPrivate, isStatic bool) *T {
+	return getParentMethodT(frame, class, method, isPrivate, isStatic)
+}
